@@ -126,6 +126,8 @@ fn values() -> Vec<(&'static str, Val)> {
         ("A[[1]]", t(Some("A"), vec![u(t(None, vec![u(Val::Int)]))])),
         ("[A[1], B[1]]", t(None, vec![u(t(Some("A"), vec![u(Val::Int)])), u(t(Some("B"), vec![u(Val::Int)]))])),
         ("#'int { $ }", Val::Fun),
+        ("&__integer_add__", Val::Fun),
+        ("A[1, 2]", t(Some("A"), vec![u(Val::Int), u(Val::Int)])),
     ]
 }
 
@@ -158,6 +160,15 @@ fn types() -> Vec<(&'static str, Ty)> {
         ("A[['int]]", Ty::Tup(Some("A"), vec![u(Ty::Tup(None, vec![u(Ty::Int)]))])),
         ("[A['int], (A['int] | B['int])]", Ty::Tup(None, vec![u(Ty::Tup(Some("A"), vec![u(Ty::Int)])), u(Ty::Union(vec![Ty::Tup(Some("A"), vec![u(Ty::Int)]), Ty::Tup(Some("B"), vec![u(Ty::Int)])]))])),
         ("(#'int -> 'int)", Ty::Fun),
+        ("(#['int, 'int] -> 'int)", Ty::Fun),
+        ("(#['int, 'int] -> ('int | 'bin))", Ty::Fun),
+        // a union whose variants each refute one field (a refuted sub-relation must not be
+        // remembered as assumed)
+        ("(A[('bin | []), 'int] | A['int, ('bin | [])])", Ty::Union(vec![
+            Ty::Tup(Some("A"), vec![u(Ty::Union(vec![Ty::Bin, Ty::Tup(None, vec![])])), u(Ty::Int)]),
+            Ty::Tup(Some("A"), vec![u(Ty::Int), u(Ty::Union(vec![Ty::Bin, Ty::Tup(None, vec![])]))]),
+        ])),
+        ("A['int, 'int]", Ty::Tup(Some("A"), vec![u(Ty::Int), u(Ty::Int)])),
     ]
 }
 
@@ -340,6 +351,8 @@ fn type_expr_of(value: &str) -> &'static str {
         "A[[1]]" => "A[['int]]",
         "[A[1], B[1]]" => "[A['int], B['int]]",
         "#'int { $ }" | "#'int { [~, 1] __integer_subtract__ }" => "(#'int -> 'int)",
+        "&__integer_add__" => "(#['int, 'int] -> 'int)",
+        "A[1, 2]" => "A['int, 'int]",
         "#'bin { $ }" => "(#'bin -> 'bin)",
         "&__integer_subtract__" => "(#['int, 'int] -> 'int)",
         _ => "[]",
@@ -567,6 +580,28 @@ pub fn run(tier: Tier) -> Result<Report, String> {
             }
         }
     }
+    // process values: a process reaches the test through a union-typed variable; verdict as
+    // compiled = verdict tree-shaken (the compatibility table derives a process value's type
+    // from the function it runs and needs that type's table entry to survive the shake)
+    let mut proc_cases = 0u64;
+    let proc_types = ["(@'int)", "(@'bin)", "('int | (@'int))", "(@'int -> 'int)", "(@'int -> 'bin)", "'int", "(#'int -> 'int)"];
+    let proc_forms = ["x ={T}", "x =({T})y", "x { ={T} => Ok | [] }", "[x] =[{T}]"];
+    for ty in proc_types.iter() {
+        for form in proc_forms.iter() {
+            let src = format!("p = @{{ !'int }},\nx = 1 {{ =0 => 5 | &p }},\n{}", form.replace("{T}", ty));
+            proc_cases += 1;
+            let direct = run_process_program_as(&src, false);
+            let shaken = run_process_program_as(&src, true);
+            if direct != shaken {
+                let sig = format!("tree-shaken-differs|process value {}|{}", form, ty);
+                violations.entry(sig.clone()).or_insert(Violation {
+                    signature: sig,
+                    summary: format!("`{}`: as compiled {}, tree-shaken {}", src.replace('\n', " ⏎ "), direct, shaken),
+                    replay: json!({"engine": "c08", "kind": "process-value", "source": src}),
+                });
+            }
+        }
+    }
     // late-value configuration (see run_late_value)
     let mut late_pairs: Vec<(String, String)> = vec![];
     for (vs, _) in values() {
@@ -616,7 +651,8 @@ pub fn run(tier: Tier) -> Result<Report, String> {
     }
     let coverage = json!({
         "late_value_cases": late_run, "late_value_rejected_by_compiler": late_rejected, "late_value_with_verdict": late_verdicts,
-        "evaluations": covered as u64 + recv_cases + late_run,
+        "process_value_programs": proc_cases,
+        "evaluations": covered as u64 + recv_cases + late_run + proc_cases,
         "distinct_nontrivial": nontrivial,
         "rule": "every (value from 23 literal values, how it reaches the test: exact type / widened by a never-taken alternative (2 ways), pattern type from 26 type expressions incl. unions, partials, named/unnamed tuples, the recursive list alias, a function type, test form from 6: type pattern, as-pattern, typed tuple field, partial field, block branch, function dispatch) as its own program, run directly, tree-shaken, and (stride) as the last line of a session that first merged pool programs; plus 30 typed-receive programs. Non-trivial = accepted by the compiler and yielding a verdict.",
         "exhaustive": covered == all.len(),
@@ -646,10 +682,15 @@ pub fn run(tier: Tier) -> Result<Report, String> {
 }
 
 fn run_process_program(src: &str) -> String {
+    run_process_program_as(src, false)
+}
+
+fn run_process_program_as(src: &str, shaken: bool) -> String {
     let unit = match qcompile::compile(src, &qcompile::core_builtins()) {
         Ok(u) => u,
         Err(e) => return format!("compile error {:?}", e),
     };
+    let bytecode = if shaken { unit.program.to_bytecode_optimized(unit.entry) } else { unit.bytecode() };
     let cfg = sim::system::Config {
         workers: 2,
         quantum: 1000,
@@ -667,7 +708,7 @@ fn run_process_program(src: &str) -> String {
         }
     }
     let mut mon = Null;
-    match sim::explore::run_once(&cfg, &unit.bytecode(), &[], &mut mon, true) {
+    match sim::explore::run_once(&cfg, &bytecode, &[], &mut mon, true) {
         Ok(r) => {
             let mut sys = r.sys.unwrap();
             let o = sim::outcome(&mut sys);
@@ -679,6 +720,12 @@ fn run_process_program(src: &str) -> String {
 }
 
 pub fn replay(replay: &J) -> Result<bool, String> {
+    if replay["kind"].as_str() == Some("process-value") {
+        let src = replay["source"].as_str().ok_or("no source")?;
+        let (d, s) = (run_process_program_as(src, false), run_process_program_as(src, true));
+        println!("  source:\n{}\n  as compiled {}, tree-shaken {}", src, d, s);
+        return Ok(d != s);
+    }
     if replay["kind"].as_str() == Some("late-value") {
         let v = replay["value"].as_str().ok_or("no value")?;
         let t = replay["type"].as_str().ok_or("no type")?;
